@@ -35,7 +35,7 @@ ASSUMPTIONS = [
     "OpenSSL AES-128-CBC for all MACs and encrypted payloads; layout model written from the property text",
     "one empty line after the hex block is tolerated (the statement does not forbid it); every non-empty hex line is checked",
 ]
-TIMEOUT = {"quick": 1800, "thorough": 6 * 3600}
+TIMEOUT = {"quick": 900, "thorough": 6 * 3600}
 NSH = 16
 OFFSETS = [0, 1, 5, 255, 256, 65535, 65536]
 
